@@ -216,3 +216,24 @@ Lemma C02_example_proof :
   map (fun ot => map (fun sq => (q_version (snd sq), q_nonce (snd sq), q_error (snd sq))) (o_reqs ot)) outs =
     [[("", "", false)]; [("v1", "n1", false)]; [("v1", "n2", true)]].
 Proof. vm_compute. repeat split; reflexivity. Qed.
+
+(** ---- C07 / C16-C18: what the handlers are handed is what lookups see afterwards ---- *)
+Lemma handlers_see_the_new_cache c o s v n p u :
+  In u (snd (handle_resp c o s v n p)) ->
+  u_type u = payload_type p /\ u_map u = tget (u_type u) (s_cache (fst (fst (handle_resp c o s v n p)))).
+Proof.
+  unfold handle_resp. destruct (s_closed s); [intros []|].
+  destruct (tget (payload_type p) (s_watched s)); [|intros []].
+  destruct (decode_payload o p) as [[m|tb]|]; cbn [fst snd]; [|intros []|intros []].
+  intros [<-|[]]. split; reflexivity.
+Qed.
+
+(** a cache change of a response is always accompanied, in the same atomic step, by a handler run *)
+Lemma cache_change_runs_handlers c o s v n p :
+  s_cache (fst (fst (handle_resp c o s v n p))) <> s_cache s -> snd (handle_resp c o s v n p) <> [].
+Proof.
+  unfold handle_resp. destruct (s_closed s); [intros H; exfalso; apply H; reflexivity|].
+  destruct (tget (payload_type p) (s_watched s)); [|intros H; exfalso; apply H; reflexivity].
+  destruct (decode_payload o p) as [[m|tb]|]; cbn [fst snd]; [|intros H; exfalso; apply H; reflexivity|intros H; exfalso; apply H; reflexivity].
+  intros _. discriminate.
+Qed.
